@@ -516,7 +516,7 @@ INLINE_FORMS = ["single", "pos", "kw", "kw-reversed", "mixed-1", "mixed-2", "pos
                 "kw+default-kw", "mixed+default-kw", "override-default-kw", "override-default-pos"]
 
 
-def check_inline_boundary(env: Env, a, b, form="single", slot=0):
+def check_inline_boundary(env: Env, a, b, form="single", slot=0, spec=None):
     """The judgement at a call boundary: inline(model whose input `x` is declared with type b)(value of type a),
     the value handed over in the given argument-passing form (positional / keyword / mixed / with a defaulted
     input omitted or given / x itself a defaulted input that is overridden), x at position `slot` of the signature."""
@@ -579,6 +579,14 @@ def check_inline_boundary(env: Env, a, b, form="single", slot=0):
             accepted = True
         except TypeError:
             accepted = False
+    if spec is not None:  # the same call for the model (driver op "call"), types by class id
+        f32s, f32v = env.enc(vals["p"].type), env.enc(vals["d"].type)
+        decl_t = {"x": env.enc(tb), "p": f32s, "q": f32s, "d": f32v}
+        val_t = {"x": env.enc(ta), "p": f32s, "q": f32s, "d": f32v}
+        key_of = {id(v): k for k, v in vals.items()}
+        spec.update({"decl": [[i.name, decl_t[i.name]] for i in inputs],
+                     "dflt": [[t.name, decl_t[t.name]] for t in inits],
+                     "pos": [val_t[key_of[id(v)]] for v in args], "kw": [[k, val_t[k]] for k in kwargs], "real": accepted})
     want = has_common_value(env, a, b)
     if accepted != want:
         how = "accepted-without-common-value" if accepted else "rejected-with-common-value"
@@ -1360,6 +1368,42 @@ def run(ck: core.Check):
     # ---------------------------------------------------------------- the call boundary (public API: inline)
     inl_stats = {"compatible": 0, "incompatible": 0, "skipped": 0}
 
+    call_specs = []
+
+    def facet_inline_corr():
+        """the model's `callAccepted` (argument binding + judgement on every bound value) vs the real call; plus
+        malformed calls (a name given twice, an unknown keyword, a missing argument, too many positionals)"""
+        import numpy as np
+        from onnx import TensorProto, helper
+
+        from spox import argument, inline
+
+        items = [sp for sp, _, _, _ in call_specs]
+        f32 = env.enc(env.ts.Tensor(np.float32, ()))
+        g = helper.make_graph([helper.make_node("Constant", [], ["y"], value=helper.make_tensor("v", TensorProto.FLOAT, [], [0.0]))], "g",
+                              [helper.make_tensor_value_info(n_, TensorProto.FLOAT, []) for n_ in ("p", "x", "q")],
+                              [helper.make_tensor_value_info("y", TensorProto.FLOAT, [])])
+        call = inline(helper.make_model(g, opset_imports=[helper.make_opsetid("", 17)]))
+        v = lambda: argument(env.ts.Tensor(np.float32, ()))  # noqa: E731
+        for pos_n, kws in [(2, ["x", "q"]), (3, ["z"]), (2, []), (4, []), (0, ["p", "x"]), (0, ["p", "x", "q", "z"]), (1, ["p", "x", "q"]),
+                           (3, []), (0, ["q", "p", "x"])]:
+            try:
+                call(*[v() for _ in range(pos_n)], **{k_: v() for k_ in kws})
+                real = True
+            except TypeError:
+                real = False
+            items.append({"decl": [[n_, f32] for n_ in ("p", "x", "q")], "dflt": [], "pos": [f32] * pos_n, "kw": [[k_, f32] for k_ in kws],
+                          "real": real, "malformed": (pos_n, kws)})
+        out = drv.ask_many("C13", [{"op": "call", "items": [{k_: it[k_] for k_ in ("decl", "dflt", "pos", "kw")} for it in items]}])[0]
+        if "error" in out:
+            note("sub", str(out))
+            return
+        for it, m_ in zip(items, out["call"]):
+            if m_ != it["real"]:
+                note("sub", f"inline call boundary: model accepted={m_} real accepted={it['real']} for {({k_: it[k_] for k_ in ('pos', 'kw', 'decl', 'dflt')})}"[:600])
+        ck.count(None, len(items))
+        ck.cov["inline_call_model_cases"] = len(items)
+
     def facet_inline():
         # more cases when the direct sweep of _subtype could not be observed
         n_inl = ck.pick(240, 1800) * (5 if "_subtype sweep" in unobservable else 1)
@@ -1379,8 +1423,11 @@ def run(ck: core.Check):
                     a = rng.choice([t for t in plain if t[0] == "t" and t[1] == b[1]])
             inl_stats.setdefault("forms", {}).setdefault(form, 0)
             inl_stats["forms"][form] += 1
+            spec = {}
             try:
-                bad = check_inline_boundary(env, a, b, form, slot)
+                bad = check_inline_boundary(env, a, b, form, slot, spec)
+                if "decl" in spec:
+                    call_specs.append((spec, a, b, form))
             except NotApplicable:
                 continue
             except Exception as e:  # noqa: BLE001  (a model input type spox refuses to build is not a verdict)
@@ -1396,6 +1443,8 @@ def run(ck: core.Check):
             ck.broken("correspondence", "C13 inline call boundary not observable", f"{inl_stats['skipped']} of {n_inl} cases raised")
 
     guard("inline call boundary", facet_inline)
+    if drv:
+        guard("inline call boundary correspondence", facet_inline_corr)
 
     ck.cov.update({
         "correspondence_mismatches": mism,
